@@ -18,7 +18,7 @@ import (
 func init() { register("C10", checkC10) }
 
 func checkC10(c *core.Ctx) {
-	c.Explainf("C10 (decided clauses, go/cfg path rules on parse.go and tokenize.go). R1: in ReadFile every path from a false result of tr.Next() to a return whose error is nil passes a call of tr.Err() whose result is returned — Next() is false without an error only at a clean EOF, so success implies the whole input was tokenized; expectNext/expectAnyOfNext test tr.Err() right after Next(). R2: a failed Next() invalidates the current token on every failing return, and UnNext() is only called while the current token is valid (typestate over each function of parse.go) — otherwise the previous token is delivered again (an unterminated union is accepted because the branch's '}' is taken for the union's). R3: every unreadByte() is dominated by a successful byte read whose error was tested; in Next() a reader failure in findFirst returns before unreadByte(). R4: the explicit panic of decodeIntegerType is fenced: its case constants cover every key of uintTypes and intTypes, the only names readEnum lets through. R5: no inner node of the token tree built by newTokenTree has a successor set whose first sorted label is the synthetic \"number\" (the recovery path indexes successors by that label's first byte). R6: every tokenizer function that reads the underlying reader records a failing read as an error and adds the end-of-input sentinel only for io.EOF. R7: a block comment token is long enough for readBlockComment's slice. R8: every index into a slice or string (and every slice-to-array conversion) in parse.go, parse_expr.go, eval_expr.go, tokenize.go and token_tree.go is proven in bounds by one of the enumerated idioms — a dominating `if len(x)… {return}`, an enclosing if/for condition, the arity of the expectNext call that produced the slice (expectNext's own contract is checked), a range over a same-length make, a counting fill, or, for a parameter, the same proof at every call site; token counts and token text are input-controlled, so an unproven index is an input that panics. R9: every non-range loop of the parser and tokenizer takes at least one token or byte from the input on balance on its cheapest cycle (consuming calls minus UnNext/unread calls, Bellman-Ford over the loop's sub-graph of the go/cfg graph, callee summaries over successful returns), or advances a counter its condition bounds; with a finite input and a reader that eventually reports EOF this bounds the iterations. R10: the tokenizer's one-token push-back flag (keepNextToken) is written only by the tokenizer itself and at one confirmed parser site (frozen table with reasons): clearing it elsewhere throws away a token a callee pushed back and the definition it starts is skipped silently. NOT decided: termination as such (a reader that never ends, recursion depth); slice expressions x[a:b] other than those of R7; nil-map and nil-pointer panics.")
+	c.Explainf("C10 (decided clauses, go/cfg path rules on parse.go and tokenize.go). R1: in ReadFile every path from a false result of tr.Next() to a return whose error is nil passes a call of tr.Err() whose result is returned — Next() is false without an error only at a clean EOF, so success implies the whole input was tokenized; expectNext/expectAnyOfNext test tr.Err() right after Next(). R2: a failed Next() invalidates the current token on every failing return, and UnNext() is only called while the current token is valid (typestate over each function of parse.go) — otherwise the previous token is delivered again (an unterminated union is accepted because the branch's '}' is taken for the union's). R3: every unreadByte() is dominated by a successful byte read whose error was tested; in Next() a reader failure in findFirst returns before unreadByte(). R4: the explicit panic of decodeIntegerType is fenced: its case constants cover every key of uintTypes and intTypes, the only names readEnum lets through. R5: no inner node of the token tree built by newTokenTree has a successor set whose first sorted label is the synthetic \"number\" (the recovery path indexes successors by that label's first byte). R6: every tokenizer function that reads the underlying reader records a failing read as an error and adds the end-of-input sentinel only for io.EOF. R7: a block comment token is long enough for readBlockComment's slice. R8: every index into a slice or string (and every slice-to-array conversion) in parse.go, parse_expr.go, eval_expr.go, tokenize.go and token_tree.go is proven in bounds by one of the enumerated idioms — a dominating `if len(x)… {return}`, an enclosing if/for condition, the arity of the expectNext call that produced the slice (expectNext's own contract is checked), a range over a same-length make, a counting fill, or, for a parameter, the same proof at every call site; token counts and token text are input-controlled, so an unproven index is an input that panics. R9: every non-range loop of the parser and tokenizer takes at least one token or byte from the input on balance on its cheapest cycle (consuming calls minus UnNext/unread calls, Bellman-Ford over the loop's sub-graph of the go/cfg graph, callee summaries over successful returns), or advances a counter its condition bounds; with a finite input and a reader that eventually reports EOF this bounds the iterations. R10: the tokenizer's one-token push-back flag (keepNextToken) is written only by the tokenizer itself and at one confirmed parser site (frozen table with reasons): clearing it elsewhere throws away a token a callee pushed back and the definition it starts is skipped silently. R11: the reader that reaches the tokenizer's buffer is the caller's own, or bufio around it — never io.LimitReader / io.LimitedReader / io.SectionReader, which end the input with a clean EOF at their limit and drop the rest of the schema without an error. NOT decided: termination as such (a reader that never ends, recursion depth); slice expressions x[a:b] other than those of R7; nil-map and nil-pointer panics.")
 	p := loadRepo(c)
 	if p == nil {
 		return
@@ -205,6 +205,7 @@ func checkC10(c *core.Ctx) {
 	checkBlockCommentLength(c, p)
 	// ---- R10
 	checkPushbackOwners(c, p)
+	checkWholeInput(c, p)
 	// ---- R8
 	checkParserBounds(c, p, "R8")
 	// ---- R9
@@ -1314,4 +1315,112 @@ func isParamOf(info *types.Info, fd *ast.FuncDecl, v *types.Var) bool {
 		}
 	}
 	return false
+}
+
+// checkWholeInput: R11. ReadFile (and Format) tokenize the reader they were
+// given, all of it: the value that reaches the tokenizer's buffered reader is
+// the caller's io.Reader itself, or bufio around it. A wrapper that ends the
+// stream early with a clean EOF (io.LimitReader, io.LimitedReader,
+// io.SectionReader) makes everything beyond its limit vanish without an error;
+// any other wrapper is unknown to the rule and leaves it without a verdict.
+func checkWholeInput(c *core.Ctx, p *load.Prog) {
+	pkg := p.Bebop()
+	info := pkg.TypesInfo
+	n := 0
+	var classify func(fd *ast.FuncDecl, e ast.Expr, depth int) (verdict int, why string) // 1 ok, 0 bad, -1 unknown
+	classify = func(fd *ast.FuncDecl, e ast.Expr, depth int) (int, string) {
+		e = ast.Unparen(e)
+		switch x := e.(type) {
+		case *ast.Ident:
+			if v, ok := info.ObjectOf(x).(*types.Var); ok {
+				if isParamOf(info, fd, v) {
+					return 1, ""
+				}
+				// a local with one definition
+				var def ast.Expr
+				defs := 0
+				ast.Inspect(fd.Body, func(m ast.Node) bool {
+					if as, ok := m.(*ast.AssignStmt); ok && len(as.Lhs) == len(as.Rhs) {
+						for i, l := range as.Lhs {
+							if lid, ok := l.(*ast.Ident); ok && info.ObjectOf(lid) == types.Object(v) {
+								defs++
+								def = as.Rhs[i]
+							}
+						}
+					}
+					return true
+				})
+				if defs == 1 && depth < 3 {
+					return classify(fd, def, depth+1)
+				}
+			}
+			return -1, "the reader " + x.Name + " is not the function's own parameter"
+		case *ast.CallExpr:
+			cal := load.Callee(info, x)
+			if cal != nil && cal.Pkg() != nil {
+				full := cal.Pkg().Path() + "." + cal.Name()
+				switch full {
+				case "bufio.NewReader", "bufio.NewReaderSize":
+					if len(x.Args) >= 1 {
+						return classify(fd, x.Args[0], depth+1)
+					}
+				case "io.LimitReader", "io.NewSectionReader":
+					return 0, full + " ends the input at its limit with a clean EOF"
+				}
+			}
+			return -1, "the reader goes through " + wire.Canon(x.Fun) + ", which the rule does not know"
+		case *ast.UnaryExpr:
+			if cl, ok := ast.Unparen(x.X).(*ast.CompositeLit); ok && x.Op == token.AND {
+				if t := info.TypeOf(cl); t != nil && strings.HasSuffix(t.String(), "io.LimitedReader") {
+					return 0, "an io.LimitedReader ends the input at its limit with a clean EOF"
+				}
+			}
+		}
+		return -1, "the reader expression " + wire.Canon(e) + " is not recognised"
+	}
+	report := func(key, pos string, v int, why string) {
+		n++
+		if v == -1 {
+			c.Undecide("%s: %s (%s)", key, why, pos)
+			return
+		}
+		c.Check("R11", key, pos, v == 1, why+": input beyond that point is dropped and ReadFile still returns a nil error — part of the schema is silently missing")
+	}
+	ctor := p.FuncDecl(pkg, "newTokenReader")
+	for _, name := range []string{"ReadFile", "Format"} {
+		fd := p.FuncDecl(pkg, name)
+		if fd == nil {
+			continue
+		}
+		ast.Inspect(fd.Body, func(m ast.Node) bool {
+			call, ok := m.(*ast.CallExpr)
+			if !ok || len(call.Args) != 1 {
+				return true
+			}
+			cal := load.Callee(info, call)
+			if cal == nil || ctor == nil || types.Object(cal) != info.Defs[ctor.Name] {
+				return true
+			}
+			v, why := classify(fd, call.Args[0], 0)
+			report(name+" hands the caller's reader to the tokenizer unshortened", p.Pos(call.Pos()), v, why)
+			return true
+		})
+	}
+	if ctor != nil {
+		// the buffered reader stored in the tokenReader wraps the parameter
+		ast.Inspect(ctor.Body, func(m ast.Node) bool {
+			kv, ok := m.(*ast.KeyValueExpr)
+			if !ok {
+				return true
+			}
+			if t := info.TypeOf(kv.Value); t == nil || !strings.HasSuffix(t.String(), "bufio.Reader") {
+				return true
+			}
+			v, why := classify(ctor, kv.Value, 0)
+			report("newTokenReader buffers the reader it was given, unshortened", p.Pos(kv.Pos()), v, why)
+			return true
+		})
+	}
+	c.Count("tokenizer_input_handoffs", n)
+	c.Floor("tokenizer_input_handoffs", 2)
 }
